@@ -352,6 +352,27 @@ breaking('Q3-seed-C19-r5m1', {'C19': 'Q3'}, patch='/verif/selftest/patches/seed_
 breaking('Q4-seed-C19-r5m2', {'C19': 'Q4'}, patch='/verif/selftest/patches/seed_C19_r5m2.diff')
 breaking('MC3-seed-C19-r5m3', {'C19': 'MC3'}, patch='/verif/selftest/patches/seed_C19_r5m3.diff')
 breaking('AC1-seed-C20-r5m3', {'C20': 'AC1'}, patch='/verif/selftest/patches/seed_C20_r5m3.diff')
+breaking('DTYPE1-seed-C02-r6m1', {'C02': 'DTYPE1'}, patch='/verif/selftest/patches/seed_C02_r6m1.diff')
+breaking('W8-seed-C02-r6m2', {'C02': 'W8'}, patch='/verif/selftest/patches/seed_C02_r6m2.diff')
+breaking('FW1-seed-C02-r6m3', {'C02': 'FW1'}, patch='/verif/selftest/patches/seed_C02_r6m3.diff')
+breaking('H7B-seed-C03-r6m1', {'C03': 'H7B'}, patch='/verif/selftest/patches/seed_C03_r6m1.diff')
+breaking('RS1-seed-C05-r6m1', {'C05': 'RS1'}, patch='/verif/selftest/patches/seed_C05_r6m1.diff')
+breaking('T1-seed-C05-r6m2', {'C05': 'T1'}, patch='/verif/selftest/patches/seed_C05_r6m2.diff')
+breaking('F1-seed-C05-r6m3', {'C05': 'F1', 'C13': 'F1'}, patch='/verif/selftest/patches/seed_C05_r6m3.diff')
+breaking('E4B-seed-C08-r6m1', {'C08': 'E4B'}, patch='/verif/selftest/patches/seed_C08_r6m1.diff')
+breaking('RO1-seed-C08-r6m2', {'C08': 'RO1'}, patch='/verif/selftest/patches/seed_C08_r6m2.diff')
+breaking('ID2-seed-C08-r6m3', {'C08': 'ID2'}, patch='/verif/selftest/patches/seed_C08_r6m3.diff')
+breaking('HM5-seed-C12-r6m2', {'C12': 'HM5'}, patch='/verif/selftest/patches/seed_C12_r6m2.diff')
+breaking('F7-seed-C12-r6m3', {'C12': 'F7'}, patch='/verif/selftest/patches/seed_C12_r6m3.diff')
+breaking('V2-seed-C13-r6m1', {'C13': 'V2'}, patch='/verif/selftest/patches/seed_C13_r6m1.diff')
+breaking('HM5-seed-C13-r6m2', {'C13': 'HM5', 'C05': 'HM5'}, patch='/verif/selftest/patches/seed_C13_r6m2.diff')
+breaking('GR7-seed-C14-r6m1', {'C14': 'GR7'}, patch='/verif/selftest/patches/seed_C14_r6m1.diff')
+breaking('MC3-seed-C14-r6m2', {'C14': 'MC3'}, patch='/verif/selftest/patches/seed_C14_r6m2.diff')
+breaking('TR1-seed-C17-r6m1', {'C17': 'TR1'}, patch='/verif/selftest/patches/seed_C17_r6m1.diff')
+breaking('MC3-seed-C17-r6m2', {'C17': 'MC3'}, patch='/verif/selftest/patches/seed_C17_r6m2.diff')
+breaking('DT12-seed-C18-r6m2', {'C18': 'DT12'}, patch='/verif/selftest/patches/seed_C18_r6m2.diff')
+breaking('O6-seed-C18-r6m3', {'C18': 'O6'}, patch='/verif/selftest/patches/seed_C18_r6m3.diff')
+breaking('LM2-seed-C20-r6m3', {'C20': 'LM2'}, patch='/verif/selftest/patches/seed_C20_r6m3.diff')
 breaking('refix-get_gme_2qubit', {'C13': 'F2', 'C05': 'F2'}, patch_reverse='fix_78cd862.diff')
 
 # ---- behaviour-preserving edits for the second half of the round-3 rules
